@@ -1197,7 +1197,11 @@ func (tc *typechecker) checkBuiltinCall(expr *ast.Call) []*typeInfo {
 						panic(tc.errorf(expr, "%s", err))
 					}
 				}
-				t.setValue(elemType)
+				if t.Nil() {
+					tc.compilation.typeInfos[el] = tc.nilOf(elemType)
+				} else {
+					t.setValue(elemType)
+				}
 			}
 		}
 		return []*typeInfo{{Type: slice.Type}}
